@@ -48,7 +48,7 @@ def case_st(draw):
         prog.setdefault("meta", {})
     else:
         opts = {"plain": dict(max_files=1), "files": dict(max_files=3), "includes": dict(max_files=2, includes=True)}[variant]
-        prog = draw(gen.program_st(const_addr=True, const_label_diff=True, locals=True, skip=True, **opts))
+        prog = draw(gen.program_st(dyn_regs=True, const_addr=True, const_label_diff=True, locals=True, skip=True, **opts))
     # choose new positions for the definitions of each file
     moves = {}
     for path, stmts in prog["files"].items():
